@@ -215,7 +215,7 @@ func (e *Engine) assume(c Value) bool {
 // activeExcuses returns the listed known-finding excuses that apply to an event key.
 func (e *Engine) activeExcuses(key string) (names []string, terms []*Term) {
 	for _, k := range e.sh.cfg.Known {
-		if k.Entry != "" && k.Entry != e.entryName {
+		if k.Entry != "" && k.Entry != e.entryName && !(strings.HasSuffix(k.Entry, "*") && strings.HasPrefix(e.entryName, strings.TrimSuffix(k.Entry, "*"))) {
 			continue
 		}
 		if k.Match != "" && !strings.Contains(key, k.Match) {
